@@ -450,6 +450,7 @@ pub fn slice_window2<T>(s: &[T], w: usize) -> (r: &[T])
 //@@ end
 
 //@@ fn file=fe2o3-amqp/src/session/mod.rs name=consecutive_chunk_indices
+//@@ shape loops=while
 //@@ attr #[verifier::spinoff_prover]
 //@@ param delivery_ids : &[u32]
 //@@ subst `delivery_ids .windows(2) .enumerate() .filter_map(|(__E1, __E2)| __E3) .collect()` => `{ let mut __fm_out: Vec<usize> = Vec::new(); let mut __fm_w: usize = 0; while __fm_w < delivery_ids.len().saturating_sub(1) { let __E1 = __fm_w; let __E2 = slice_window2(delivery_ids, __fm_w); let __fm_o: Option<usize> = __E3; if let Some(__fm_v) = __fm_o { __fm_out.push(__fm_v); } __fm_w += 1; } proof { reveal(chunk_positions); lemma_cp_upto(delivery_ids@, __fm_w as int); } __fm_out }` rule=R34
@@ -560,6 +561,7 @@ impl Session {
 //@@ end
 
 //@@ fn file=fe2o3-amqp/src/session/mod.rs impl=`impl Session` name=prepare_session_frames_from_buffered_transfers
+//@@ shape loops=while;stmt-1=Ok (
 //@@ spec
     ensures
         r is Ok,                                                                                          // [C07.drain.total]
@@ -610,6 +612,7 @@ impl Session {
 //@@ end
 
 //@@ fn file=fe2o3-amqp/src/session/mod.rs impl=`impl Session` name=prepare_session_frames_from_buffered_and_current_transfers
+//@@ shape stmt-2=if self
 //@@ spec
     ensures
         r is Ok,                                                                                          // [C07.cur.total]
@@ -975,6 +978,7 @@ impl Session {
     }
 
 //@@ fn file=fe2o3-amqp/src/session/mod.rs impl=`impl endpoint::Session for Session` name=on_incoming_disposition
+//@@ shape loops=while,while,for,for
 //@@ subst `&delivery_ids[..]` => `delivery_ids.as_slice()` rule=R22
 //@@ subst `let mut delivery_ids = Vec::new();` => `let mut delivery_ids: Vec<u32> = Vec::new();` rule=optional-R5
 //@@ subst `let mut dispositions = Vec::with_capacity(` => `let mut dispositions: Vec<Disposition> = Vec::with_capacity(` rule=optional-R5
